@@ -29,6 +29,7 @@ Stable violation keys:
   undeclared-variable-reference   validator-audit-mismatch (no_input)
   compiler-hash-iteration-site:<site> (no_input; only when no nondeterministic-output was found)
 """
+import time
 import collections, hashlib, json, os, random, re, time
 import vlib, compilerun, mutate_ink, detcomp, gen_decls
 from props import common
@@ -116,8 +117,14 @@ def confirm_hangs(cases, res, exe):
     (wall-clock limits on a loaded machine: only a case that fails both is reported as a hang)"""
     idx = [i for i, r in enumerate(res) if r.get("status") == "hang"]
     slow = []
-    for i in idx[:12]:
-        r2 = compilerun.run([cases[i]], exe, timeout=30.0, shards=1)[0]
+    t_end = time.time() + 900
+    for i in idx:
+        if time.time() > t_end:
+            # not re-run alone: a wall-clock limit that was only ever exceeded under 16-fold load decides nothing
+            slow.append(dict(stream=cases[i].get("stream"), bytes=len(cases[i]["src"]), unconfirmed=True))
+            res[i] = dict(res[i], status="slow-unconfirmed")
+            continue
+        r2 = compilerun.run([cases[i]], exe, timeout=60.0, shards=1)[0]
         if r2.get("status") != "hang":
             slow.append(dict(stream=cases[i].get("stream"), bytes=len(cases[i]["src"])))
             res[i] = r2
